@@ -585,6 +585,25 @@ def run(ck):
           f"written and read under the same reserved key {w_lit}" if ok else
           f"the stop time stamp is written under {w_lit} but read under {r_lit} (reserved prefix "
           f"{lit!r})", rf, ts[0].ast if ts else rf.node)
+    # with a storage attached the purge and the time stamp read happen unconditionally: the only
+    # way round them is "there is no storage" (in particular NOT "no persistent block": a start
+    # without persistent blocks must still drop the stale entries, or a later start restores them
+    # with a fresh stop time stamp)
+    nostorage = [n for n in gcp.nodes if n.kind == 'branch' and any(
+        canon_fact(e_, p_) == canon_fact(ast.parse('self.persistent_dict is None', mode='eval').body, True)
+        for e_, p_ in decompose(n.test.ast, n.polarity))]
+    loops = [l for l in gcp.nodes if l.kind == 'for' and dels and gcp.dominates(l, dels[0])]
+    tsw = nodes_writing_attr(gcp, 'persistent_ts')
+    wit1 = gcp.path_avoiding(gcp.entry, [gcp.exit], avoid=nostorage + loops[-1:]) if loops else [gcp.entry]
+    wit2 = gcp.path_avoiding(gcp.entry, [gcp.exit], avoid=nostorage + tsw) if tsw else [gcp.entry]
+    ck.ob(R8, f"{cpd.fid} :: purge and time stamp read whenever a storage exists",
+          wit1 is None and wit2 is None and bool(nostorage),
+          "every path that does not see `persistent_dict is None` reads the stop time stamp and "
+          "runs the purge loop" if wit1 is None and wit2 is None and nostorage else
+          "with a storage attached, a path skips the purge of unused entries and/or the read of "
+          "the stop time stamp (e.g. when the circuit has no persistent block): stale entries "
+          "survive and are restored by a later start", cpd, dels[0].ast if dels else cpd.node,
+          witness=path_witness(gcp, wit1 or wit2))
     pb = nodes_where(gcp, lambda n: isinstance(n.ast, ast.Assign) and norm(n.ast.targets[0]) == 'persistent_blocks')
     ok = len(pb) == 1 and 'getblocks(addons.AddonPersistence)' in norm(pb[0].ast.value) and \
         'blk.persistent' in norm(pb[0].ast.value)
